@@ -241,7 +241,8 @@ impl<W: std::io::Write + std::io::Seek, E: crate::byteorder::Endianness> FlacByt
             self.finalized = true;
 
             // encode as many bytes as possible into final frame, if necessary
-            if !self.buf.is_empty() {
+            // (a buffer holding less than one whole PCM frame has nothing to encode)
+            if self.buf.len() >= self.pcm_frame_size {
                 use crate::byteorder::LittleEndian;
 
                 // truncate buffer to whole PCM frames
@@ -586,7 +587,8 @@ impl<W: std::io::Write + std::io::Seek> FlacSampleWriter<W> {
             self.finalized = true;
 
             // encode as many samples possible into final frame, if necessary
-            if !self.sample_buf.is_empty() {
+            // (a buffer holding less than one whole PCM frame has nothing to encode)
+            if self.sample_buf.len() >= self.pcm_frame_size {
                 // truncate buffer to whole PCM frames
                 let buf = self.sample_buf.make_contiguous();
                 let buf_len = buf.len();
